@@ -60,7 +60,7 @@ def d_protocols(g, tier):
 
 MODELS = {
     # name: (module, quick cfg, thorough cfg, parsers, quick vector limit)
-    "framing": ("MC_Framing.tla", "MC_Framing_quick.cfg", "MC_Framing_thorough.cfg", ["A"], 9000),
+    "framing": ("MC_Framing.tla", "MC_Framing_quick.cfg", "MC_Framing_thorough.cfg", ["A"], 20000),
 }
 
 
